@@ -45,11 +45,14 @@ TOOL5A = dict(type="tool", spec_version="2.1", id=T5ID, created=T1, modified=T1,
 TOOL5B = dict(type="tool", spec_version="2.1", id=T5ID, created=T1, modified=T2, name="t5b")
 I1ID = "identity--e1d2f3a4-5b6c-11ea-8d7e-0123456789ab"      # UUIDv1-shaped id
 IDENT1 = dict(type="identity", spec_version="2.1", id=I1ID, created=T1, modified=T1, name="i1")
+UPID = "course-of-action--3F7F0C5F-5D54-4292-94EA-EC1E1952BE1A"     # upper-case hex digits (accepted by the library), the only id of its type directory
+COA_UP1 = dict(type="course-of-action", spec_version="2.1", id=UPID, created=T1, modified=T1, name="up1")
+COA_UP2 = dict(type="course-of-action", spec_version="2.1", id=UPID, created=T1, modified=T2, name="up2")
 RID = "x-verif-obj--" + U + "6"
 R1 = dict(type="x-verif-obj", spec_version="2.1", id=RID, created=T1, modified=T1, prop="r1")
 R2 = dict(type="x-verif-obj", spec_version="2.1", id=RID, created=T1, modified=T2, prop="r2")
-IDS = [A, SCO["id"], OLD20["id"], MD["id"], XID, RID, T5ID, I1ID, "campaign--" + U + "9", CU["id"]]
-TYPES = ["campaign", "ipv4-addr", "marking-definition", "x-unreg", "x-verif-obj", "tool", "identity", "malware"]
+IDS = [A, SCO["id"], OLD20["id"], MD["id"], XID, RID, T5ID, I1ID, "campaign--" + U + "9", CU["id"], UPID]
+TYPES = ["campaign", "ipv4-addr", "marking-definition", "x-unreg", "x-verif-obj", "tool", "identity", "malware", "course-of-action"]
 
 
 def register_custom():
@@ -88,14 +91,18 @@ def EVENTS():
         "c0": (lambda: copy.deepcopy(C0), [C0]), "c1": (lambda: copy.deepcopy(C1), [C1]), "c2": (lambda: copy.deepcopy(C2), [C2]),
         "mix-list": (lambda: [O(V2), copy.deepcopy(C1), O(SCO)], [V2, C1, SCO]),
         "cu": (lambda: copy.deepcopy(CU), [CU]),
+        "coa-upper1": (lambda: O(COA_UP1), [COA_UP1]), "coa-upper2-dict": (lambda: copy.deepcopy(COA_UP2), [COA_UP2]),
+        # arrival through a FILE (memory: load_from_file into the store as it stands; filesystem: the same bundle dict through add)
+        "v2-loadfile": (lambda: ("$loadfile", bundle_dict(V2)), [V2]), "v1v3-loadfile": (lambda: ("$loadfile", bundle_dict(V1, V3)), [V1, V3]),
+        "c2-loadfile": (lambda: ("$loadfile", bundle_dict(C2)), [C2]),
         "c3": (lambda: copy.deepcopy(C3), [C3]), "c4-text": (lambda: json.dumps(C4), [C4]),
         "tool5a": (lambda: O(TOOL5A), [TOOL5A]), "tool5b-dict": (lambda: copy.deepcopy(TOOL5B), [TOOL5B]), "ident1": (lambda: O(IDENT1), [IDENT1]),
     }
 
 
 QUICK_EVENTS = ["v1-obj", "v2-obj", "v3-obj", "v1-dict", "v2-dict-6digits", "v3-list", "v1v3-bundle-obj", "v2-bundle-dict", "v1-text", "v2x-obj",
-                "sco", "old20-dict", "md", "reg2-dict", "c0", "c1", "c2", "mix-list", "c3", "c4-text", "tool5a", "tool5b-dict", "v3us-obj", "cu"]
-ALL_EVENTS = QUICK_EVENTS + ["reg1", "ident1"]
+                "sco", "old20-dict", "md", "reg2-dict", "c0", "c1", "c2", "mix-list", "c3", "c4-text", "tool5a", "tool5b-dict", "v3us-obj", "cu", "coa-upper1", "v2-loadfile", "v1v3-loadfile", "c2-loadfile"]
+ALL_EVENTS = QUICK_EVENTS + ["reg1", "ident1", "coa-upper2-dict"]
 
 
 def instant_of(d):
@@ -205,7 +212,7 @@ def observe(store, part, what):
 
 def feature_of(id_):
     return {A: "versioned-sdo", SCO["id"]: "unversioned-sco", OLD20["id"]: "v20-sdo", MD["id"]: "marking-definition", XID: "unregistered-dict",
-            RID: "registered-custom", T5ID: "uuid5-id", I1ID: "uuid1-id", CU["id"]: "unversioned-unregistered-dict"}.get(id_, "absent-id")
+            RID: "registered-custom", T5ID: "uuid5-id", I1ID: "uuid1-id", CU["id"]: "unversioned-unregistered-dict", UPID: "upper-case-hex-id"}.get(id_, "absent-id")
 
 
 def compare(sname, obs, model, part, case, conflicted):
@@ -299,7 +306,14 @@ def run_history(case, part):
                 mm.add(a)
             part.transitions += 1
             try:
-                mem.add(item)
+                if isinstance(item, tuple) and item[0] == "$loadfile":
+                    lp = os.path.join(d, "incoming-%d.json" % step)
+                    with open(lp, "w") as fh:
+                        json.dump(item[1], fh)
+                    mem.load_from_file(lp)
+                    os.unlink(lp)
+                else:
+                    mem.add(item)
                 part.outcome("mem-add-ok")
             except Exception as e:
                 part.outcome("mem-add-raises:" + type(e).__name__)
@@ -312,7 +326,8 @@ def run_history(case, part):
                 fm.add(a)
             part.transitions += 1
             try:
-                fs.add(factory())
+                fitem = factory()
+                fs.add(fitem[1] if isinstance(fitem, tuple) and fitem[0] == "$loadfile" else fitem)
                 part.outcome("fs-add-ok")
             except DataSourceError:
                 # loud refusal to overwrite: legitimate only if some atom's (id, instant) was already stored
@@ -410,7 +425,7 @@ def run(run):
     for h in itertools.product(["v1-obj", "v2-dict-6digits", "v3-list", "c1", "c2", "sco", "md", "mix-list"], repeat=2):
         cases.append({"history": list(h), "bundlify": True})
     # the same histories with a full read after EVERY add (depth 2: all events; depth 3: the events that share an id or a type directory)
-    shared = ["v1-obj", "v2-dict-6digits", "v3us-obj", "old20-dict", "cu", "c1", "c2", "c4-text", "mix-list", "md", "sco", "tool5a", "tool5b-dict"]
+    shared = ["v1-obj", "v2-dict-6digits", "v3us-obj", "old20-dict", "cu", "c1", "c2", "c4-text", "mix-list", "md", "sco", "tool5a", "tool5b-dict", "v2-loadfile", "coa-upper1"]
     for h in itertools.product(names, repeat=2):
         cases.append({"history": list(h), "reads": "interleaved", "saveload": False})
     for h in itertools.product(shared if not th else names, repeat=3):
